@@ -114,10 +114,12 @@ def signatures(rep, prog):
             rep.ob('R17.sig', f'circuit:{key}', None, f'{ast.unparse(vn)} not resolved', site); continue
         ok = {'id', 'nodes'} <= params
         # the factory must construct the kind it is registered under
-        kinds = {n.value for c in ast.walk(prog.resolve_expr(cm, vn)[2]) if isinstance(c, ast.Call) and getattr(c.func, 'id', '') == 'Component'
-                 for k in c.keywords if k.arg == 'type' for n in [k.value] if isinstance(n, ast.Constant)}
+        from .translate import component_kinds
+        target = prog.resolve_expr(cm, vn)[2]
+        kinds = {k_ for k_, info in component_kinds(prog).items() if info['node'] is target}
         ok2 = kinds == {key}
-        rep.ob('R17.sig', f'circuit:{key}', ok and ok2, f"{fname}(id, nodes, …) constructs kind {sorted(kinds)}" + ('' if ok and ok2 else ' -- MISMATCH with its table key'), site)
+        if not kinds: ok2 = None
+        rep.ob('R17.sig', f'circuit:{key}', (ok and ok2) if ok2 is not None else None, f"{fname}(id, nodes, …) constructs kind {sorted(kinds)}" + ('' if ok and ok2 else ' -- MISMATCH with its table key'), site)
 
 
 # ---------------------------------------------------------------------------------------------- R17.pure
